@@ -42,6 +42,7 @@ def make_batch_xml(ctx, g, n):
         if len(doc.records) >= 2:
             ctx.nontrivial(w.ops)
     abs_docs = specread.spec_read_xml_texts([t for (_w, _d, _o, t) in docs])
+    ctx.model_ops += len(docs)
     for (w, doc, ft, text), got in zip(docs, abs_docs):
         want = proto.strict_doc(doc)
         ctx.sample({"xml": text[:200]})
@@ -85,6 +86,7 @@ def make_batch(ctx, g, n):
         if len(doc.records) >= 2:
             ctx.nontrivial(w.ops)
     abs_docs = specread.spec_read_json_texts([t for (_w, _d, _o, t) in docs])
+    ctx.model_ops += len(docs)
     for (w, doc, opts, text), got in zip(docs, abs_docs):
         want = proto.strict_doc(doc)
         ctx.sample({"json": text[:200]})
